@@ -201,6 +201,17 @@ where R: LLLRing, for<'x> &'x R: LLLRingOps<R> {
         while self.data.step < m { 
             self.iterate();
         }
+
+        // the last row is never used as a reducer, 
+        // hence its pivot must be normalized here.
+        if m > 0 { 
+            if let Some(j) = self.data.nz_col_in(m - 1) { 
+                let u = self.data.target[(m - 1, j)].normalizing_unit();
+                if !u.is_one() { 
+                    self.data.mul_row(m - 1, &u);
+                }
+            }
+        }
     }
 
     fn iterate(&mut self) { 
